@@ -20,6 +20,10 @@ Fixpoint unescape (s : str) : option str :=
         | "l" :: "t" :: ";" :: r' => omap (cons "<") (unescape r')
         | "g" :: "t" :: ";" :: r' => omap (cons ">") (unescape r')
         | "q" :: "u" :: "o" :: "t" :: ";" :: r' => omap (cons """") (unescape r')
+        | "a" :: "p" :: "o" :: "s" :: ";" :: r' => omap (cons "'") (unescape r')
+        | "#" :: "1" :: "0" :: ";" :: r' => omap (cons "010") (unescape r')
+        | "#" :: "9" :: ";" :: r' => omap (cons "009") (unescape r')
+        | "#" :: "1" :: "3" :: ";" :: r' => omap (cons "013") (unescape r')
         | _ => None
         end
       else if Ascii.eqb c "<" then None else omap (cons c) (unescape r)
